@@ -16,6 +16,8 @@ use std::path::PathBuf;
 use std::sync::{Arc, Mutex};
 
 pub mod spy;
+pub mod sysrun;
+pub mod sysoracle;
 
 // ---------------------------------------------------------------- PRNG
 #[derive(Clone)]
@@ -329,11 +331,24 @@ pub fn fxhash(b: &[u8]) -> u64 {
     h
 }
 
-/// Run `f`, turning a panic into `Err(message)`.  The default panic hook is silenced once.
+thread_local! { static IN_CATCH: std::cell::Cell<u32> = std::cell::Cell::new(0); }
+
+/// Run `f`, turning a panic into `Err(message)`.  Panics inside `catch` are silent; a panic of the
+/// harness itself (outside `catch`) is still printed.
 pub fn catch<R>(f: impl FnOnce() -> R) -> Result<R, String> {
     static ONCE: std::sync::Once = std::sync::Once::new();
-    ONCE.call_once(|| std::panic::set_hook(Box::new(|_| {})));
-    std::panic::catch_unwind(std::panic::AssertUnwindSafe(f)).map_err(|e| {
+    ONCE.call_once(|| {
+        let default = std::panic::take_hook();
+        std::panic::set_hook(Box::new(move |info| {
+            if IN_CATCH.with(|c| c.get()) == 0 && std::thread::current().name() == Some("main") {
+                default(info);
+            }
+        }))
+    });
+    IN_CATCH.with(|c| c.set(c.get() + 1));
+    let r = std::panic::catch_unwind(std::panic::AssertUnwindSafe(f));
+    IN_CATCH.with(|c| c.set(c.get() - 1));
+    r.map_err(|e| {
         if let Some(s) = e.downcast_ref::<&str>() {
             s.to_string()
         } else if let Some(s) = e.downcast_ref::<String>() {
